@@ -567,7 +567,9 @@ class Hub:
                 return -1
         return 0
 
-    def history(self, address):
+    def history(self, address, truthful=False):
+        """What the hub REPORTS for the address (including Byzantine height lies), or with `truthful` what the
+        chain really says."""
         conf, mem = [], []
         for txid in self.addr_txs.get(address, ()):
             tx = self.txs[txid]
@@ -580,12 +582,15 @@ class Hub:
             mem.sort(key=lambda t: t.txid)
         else:
             mem.sort(key=lambda t: t.seq)
-        out = [(t.txid, t.height + self.height_shift.get(t.txid, 0) + self.hist_shift.get(t.txid, 0)) for t in conf]
+        if truthful:
+            out = [(t.txid, t.height) for t in conf]
+        else:
+            out = [(t.txid, t.height + self.height_shift.get(t.txid, 0) + self.hist_shift.get(t.txid, 0)) for t in conf]
         out += [(t.txid, self._mempool_height(t)) for t in mem]
         return out
 
-    def history_string(self, address):
-        return ''.join(f'{txid}:{height}:' for txid, height in self.history(address))
+    def history_string(self, address, truthful=False):
+        return ''.join(f'{txid}:{height}:' for txid, height in self.history(address, truthful))
 
     def status(self, address):
         s = self.history_string(address)
